@@ -352,7 +352,7 @@ def chunks(tier, seed):
     buf = []
     i = 0
     while i < n:
-        text = mutgen.gen_doc_text(rng, max_depth=rng.choice([2, 3, 3]), map_anchors=rng.random() < 0.25)
+        text = mutgen.gen_doc_text(rng, max_depth=rng.choice([2, 3, 3]), map_anchors=rng.random() < 0.25, int_keys=True)
         try:
             data = mutgen.load(text)
         except Exception:  # noqa
